@@ -316,3 +316,37 @@ func VerifH_C19_nocmap() {
 	verifAssert(verifLeaked() == 0, "no goroutine left running")
 	verifReach("done")
 }
+
+// VerifH_C16_explain: ExplainGsub / ExplainGpos are read-only operations: with the font frozen (every object
+// reachable from it and all package-level variables), explaining lookups of each kind stores nothing into
+// frozen memory.  The alternate sets, ligature lists and coverage tables are deliberately not in sorted order.
+func VerifH_C16_explain() {
+	f := verifFont19(true, true)
+	f.Gsub = &gtab.Info{LookupList: gtab.LookupList{
+		{Meta: &gtab.LookupMetaInfo{LookupType: 3}, Subtables: []gtab.Subtable{&gtab.Gsub3_1{Cov: coverage.Table{1: 0, 2: 1}, Alternates: [][]glyph.ID{{4, 3, 2}, {7, 5}}}}},
+		{Meta: &gtab.LookupMetaInfo{LookupType: 4}, Subtables: []gtab.Subtable{&gtab.Gsub4_1{Cov: coverage.Table{2: 0, 1: 1}, Repl: [][]gtab.Ligature{{{In: []glyph.ID{3, 1}, Out: 5}, {In: []glyph.ID{1}, Out: 4}}, {{In: []glyph.ID{2}, Out: 6}}}}}},
+		{Meta: &gtab.LookupMetaInfo{LookupType: 2}, Subtables: []gtab.Subtable{&gtab.Gsub2_1{Cov: coverage.Table{3: 0}, Repl: [][]glyph.ID{{7, 1, 4}}}}},
+		{Meta: &gtab.LookupMetaInfo{LookupType: 6}, Subtables: []gtab.Subtable{&gtab.ChainedSeqContext3{Backtrack: []coverage.Set{{3: true, 1: true}}, Input: []coverage.Set{{5: true, 2: true}}, Lookahead: []coverage.Set{{7: true, 4: true}},
+			Actions: []gtab.SeqLookup{{SequenceIndex: 0, LookupListIndex: 0}}}}},
+	}}
+	f.Gpos = &gtab.Info{LookupList: gtab.LookupList{
+		{Meta: &gtab.LookupMetaInfo{LookupType: 1}, Subtables: []gtab.Subtable{&gtab.Gpos1_2{Cov: coverage.Table{1: 0, 2: 1}, Adjust: []*gtab.GposValueRecord{{XAdvance: 5}, {YPlacement: -3}}}}},
+		{Meta: &gtab.LookupMetaInfo{LookupType: 2}, Subtables: []gtab.Subtable{gtab.Gpos2_1{glyph.Pair{Left: 2, Right: 1}: &gtab.PairAdjust{First: &gtab.GposValueRecord{XAdvance: -40}}, glyph.Pair{Left: 1, Right: 2}: &gtab.PairAdjust{First: &gtab.GposValueRecord{XAdvance: -10}, Second: &gtab.GposValueRecord{XPlacement: 3}}}}},
+	}}
+	verifShared(f)
+	verifFreeze()
+	verifExplainBoth(f, verifChoose("which", 2))
+	verifThaw()
+	verifReach("done")
+}
+
+// verifExplainBoth runs in its own frame: its locals are allocated after the freeze.
+func verifExplainBoth(f *sfnt.Font, which int) {
+	if which == 0 {
+		text := ExplainGsub(f)
+		verifAssert(len(text) > 0, "GSUB explained")
+	} else {
+		text := ExplainGpos(f)
+		verifAssert(len(text) == 2, "GPOS explained")
+	}
+}
